@@ -242,8 +242,8 @@ class DiscreteFactorTable(Distribution):
                 margele = projection(ele)
             except TypeError:
                 try:
-                    margele = eval(projection, ele)
-                except SyntaxError:
+                    margele = eval(projection, {}, ele) # the row as locals: as globals, eval would insert '__builtins__' into it
+                except (SyntaxError, TypeError):
                     if isinstance(projection, list):
                         margele = {v: ele[v] for v in projection}
                     else:
